@@ -1,4 +1,5 @@
 import numpy as np
+import copy
 import json
 import re
 
@@ -142,6 +143,13 @@ class BaseNode(Node):
         """
         if node.keyword!='mod' and node.dtype!=self.dtype:
             raise Exception(f"Datatype {self.dtype} of node '{self.name}' cannot be changed to {node.dtype}")
+        if node.keyword=='mod' and (node.value_expr or node.value_fn):
+            # a modification without data type given by an expression or a function is evaluated as a definition of this node would be
+            typed = copy.copy(self)
+            typed.value_raw, typed.value_expr, typed.value_fn = None, node.value_expr, node.value_fn
+            typed.units_raw = node.units_raw if node.units_raw else self.units_raw
+            typed.parse(env)
+            node.value_raw, node.units_raw = typed.value_raw, typed.units_raw
         if not self.value:  # create a dummy value if none
             self.set_value(node.value_raw)
         # copy value type modify values and units
